@@ -163,11 +163,12 @@ def run_call(ct, call):
     if api.startswith("gen:"):
         name = api[4:]
         eqgens = {
-            "rand_equation": lambda: utils.rand_equation(6, 3, n_out=1, n_hyper_in=1, seed=seed),
-            "tree_equation": lambda: utils.tree_equation(7, n_outer=2, seed=seed),
-            "randreg_equation": lambda: utils.randreg_equation(8, 3, seed=seed),
-            "perverse_equation": lambda: utils.perverse_equation(6, seed=seed),
-            "lattice_equation": lambda: utils.lattice_equation([2, 3], seed=seed),
+            # (every kind of index the generator can make: plain, output, inner hyper, outer hyper)
+            "rand_equation": lambda: utils.rand_equation(7, 3, n_out=1, n_hyper_in=1, n_hyper_out=1, d_min=2, d_max=4, seed=seed),
+            "tree_equation": lambda: utils.tree_equation(7, d_min=2, d_max=4, n_outer=2, seed=seed),
+            "randreg_equation": lambda: utils.randreg_equation(8, 3, d_min=2, d_max=4, seed=seed),
+            "perverse_equation": lambda: utils.perverse_equation(6, num_indices=4, min_rank=1, max_rank=4, d_min=2, d_max=4, n_outer=1, seed=seed),
+            "lattice_equation": lambda: utils.lattice_equation([2, 3], cyclic=True, d_min=2, d_max=4, seed=seed),
         }
         if name in eqgens:
             def frozen(r):
@@ -191,7 +192,7 @@ def run_call(ct, call):
             n = make_net("ring8")
             return [a.tobytes().hex()[:64] for a in utils.make_arrays_from_inputs(n[0], n[2], seed=seed)]
         if name == "rand_tree":
-            return canon_tree(utils.rand_tree(6, 3, seed=seed))
+            return canon_tree(utils.rand_tree(7, 3, n_out=1, n_hyper_in=1, n_hyper_out=1, d_max=4, seed=seed))
     net = make_net(netk)
     inputs, output, size = net
     if api == "RandomGreedyOptimizer":
@@ -215,6 +216,24 @@ def run_call(ct, call):
         return canon_tree(path_kahypar.kahypar_to_tree.build_agglom(inputs, output, size, seed=seed, groupsize=3))
     tree = start_tree(ct, net)
     kw = dict(kw)
+    if api.startswith("compressed.") or api == "windowed_reconfigure":
+        # the refinement methods of COMPRESSED trees (their own annealer / windowed optimizer), and the windowed
+        # reconfiguration of an exact tree; the step order is part of a compressed tree
+        from cotengra.scoring import CompressedPeakObjective
+        mz = CompressedPeakObjective(4)
+        ctree = ct.ContractionTreeCompressed.from_path(inputs, output, size, ssa_path=tree.get_ssa_path(), objective=mz)
+
+        def ordered(t):
+            return tuple(tuple(sorted(p)) for p in t.get_ssa_path())
+        if api == "compressed.simulated_anneal":
+            return ordered(ctree.simulated_anneal(mz, tsteps=3, numiter=8, tstart=1.0, seed=seed))
+        if api == "compressed.simulated_anneal_default_objective":
+            return ordered(ctree.simulated_anneal(tsteps=3, numiter=8, tstart=1.0, seed=seed))
+        if api == "compressed.windowed_reconfigure":
+            return ordered(ctree.windowed_reconfigure(mz, window_size=4, max_iterations=6, queue_temperature=1.0, seed=seed))
+        if api == "windowed_reconfigure":
+            return ordered(tree.windowed_reconfigure("flops", window_size=4, max_iterations=6, queue_temperature=1.0, seed=seed))
+        raise ValueError(api)
     if kw.pop("warm", False):
         # the tree object has a past: it was reconfigured before (its cache of optimized subtrees is not empty), queried
         # and copied; the seeded call below is then made TWICE on this same object (see main)
